@@ -8,6 +8,10 @@ generator's AST by mc/refmodels/dip_gen_a.py (exact Fraction arithmetic over han
 Negative programs (must make parse() fail): typed modification with another data type, untyped word for a number or
 a boolean, unit of another dimension, assignment to a `!constant` node, declaration never assigned, modification of
 an undefined node - alone, after and before a valid modification.
+Constraints: scalar int / float nodes in m / cm carrying an option list that holds every reachable value (written in
+the unit of the definition or in another unit) and / or a condition, so that the validation pass of parse() runs.
+Functions: a node v computed by a DIP function (DIP.add_function) that converts, returns or reads node a; node a must
+keep the unit / value / type of its definition.
 Placements: root; inside a group (indented); group + dotted-path modifications; group re-opened; DIP(env) chain.
 
 Integer nodes in cm / mm are modified with values (290, -290, 7000, 17000) whose conversion from mm / um is a whole number
@@ -216,7 +220,8 @@ def _mod_line(fam, step, name, d):
                 dims=("[2]" if (typed and shape == "array") else None), lit=L, unit=mu)
 
 
-def build(fam, seq, placement="root", bad=None, bad_at=None, constant=False, undefined=False):
+def build(fam, seq, placement="root", bad=None, bad_at=None, constant=False, undefined=False, props=None,
+          pre=None, post=None):
     """-> list of programs (one per DIP object of the chain), or None if the case is not demanded"""
     kw, unit, shape, first, variant = fam
     base = G.TYPEINFO[kw][3]
@@ -227,6 +232,7 @@ def build(fam, seq, placement="root", bad=None, bad_at=None, constant=False, und
     if uses_cu:
         head.append(dict(G.CU_LINE))
     head.append(dict(k="def", d=0, name="s", type="int", dims=None, lit=G.lit("1", 1), unit=None))
+    head.extend(pre or [])
     inner = placement != "root"
     d0 = 1 if inner else 0
     if inner:
@@ -238,6 +244,8 @@ def build(fam, seq, placement="root", bad=None, bad_at=None, constant=False, und
         head.append(dict(k="decl", d=d0, name="a", type=kw, dims=dims, unit=unit))
     if constant:
         head.append(dict(k="const", d=d0 + 1))
+    for text in (props or []):
+        head.append(dict(k="prop", d=d0 + 1, text=text))
     head.append(dict(k="def", d=0, name="z", type="int", dims=None, lit=G.lit("9", 9), unit=None))
     tail = []
     if placement == "root":
@@ -250,7 +258,7 @@ def build(fam, seq, placement="root", bad=None, bad_at=None, constant=False, und
     else:
         mname, md = "a", 1
         tail.append(dict(k="group", d=0, name="g"))
-    mods = [_mod_line(fam, s, mname, md) for s in seq]
+    mods = [_mod_line(fam, s, mname, md) for s in seq] + list(post or [])
     if bad is not None:
         reason, tkw, L, bu = bad
         tdims = None
@@ -319,10 +327,119 @@ def case_tags(fam, seq, placement, bad=None, constant=False, undefined=False):
     return tags
 
 
+# ------------------------------------------------------------------------------------------------ constraints
+CKINDS = ("opt-same", "opt-other", "cond", "opt-other+cond")
+CONDITION = '!condition ("{?} > -100000000")'
+
+
+def constrained_families():
+    """scalar numeric nodes with a unit; (kw, unit, 'scalar', first, variant)"""
+    out = []
+    for kw in ("int", "float"):
+        for unit in ("m", "cm"):
+            out.append((kw, unit, "scalar", "def", "normal"))
+            out.append((kw, unit, "scalar", "decl", None))
+    return out
+
+
+def value_steps(fam, core=False):
+    """the steps of a family that assign a number (none cannot satisfy an option list or a condition)"""
+    return [s for s in steps(fam, core) if s[1] != "none"]
+
+
+def _final_a(fam, seq):
+    """exact value of node a (in the unit of its definition) after seq, as a Fraction"""
+    progs = build(fam, list(seq))
+    pa = [p for p in G.interpret([ln for pr in progs for ln in pr]) if p["path"] == "a"][0]
+    return Fraction(pa["value"])
+
+
+def _decimal(fr):
+    """exact decimal text of a Fraction whose denominator has only the factors 2 and 5"""
+    k, scaled = 0, fr
+    while scaled.denominator != 1:
+        scaled, k = scaled * 10, k + 1
+        if k > 30:
+            raise HarnessError("value without finite decimal expansion: %r" % (fr,))
+    if k == 0:
+        return str(fr.numerator)
+    digits = str(abs(scaled.numerator)).rjust(k + 1, "0")
+    return ("-" if fr < 0 else "") + digits[:-k] + "." + digits[-k:]
+
+
+def constraint_props(fam, ckind):
+    """property lines behind the definition: an option list holding every value the node can get (written in the unit
+    of the definition or in another unit of the dimension) and / or a condition that every value satisfies"""
+    kw, unit, shape, first, variant = fam
+    base = G.TYPEINFO[kw][3]
+    props = []
+    if ckind.startswith("opt"):
+        ou = unit if ckind == "opt-same" else OTHER[unit][0]
+        vals = set()
+        if first == "def":
+            vals.add(_final_a(fam, []))
+        for s in value_steps(fam):
+            v = _final_a(fam, [s])
+            if base == "int" and v.denominator != 1:
+                continue                       # never the final value of an integer node (not demanded, filtered)
+            vals.add(v)
+        for v in sorted(vals):
+            w = v * G.UNITS[unit][0] / G.UNITS[ou][0]
+            if base == "int" and w.denominator != 1:
+                raise HarnessError("option of an integer node is not integral in %s: %r" % (ou, w))
+            props.append("= %s %s" % (_decimal(w), ou))
+    if ckind.endswith("cond"):
+        props.append(CONDITION)
+    return props
+
+
+# ------------------------------------------------------------------------------------------------ functions
+FN_KINDS = ("conv", "ret", "read")
+FN_TARGET = {"m": "km", "cm": "m"}          # the unit the function converts node a into
+
+
+def function_table(unit):
+    """DIP functions (registered with DIP.add_function) that read ANOTHER node, written the documented way"""
+    tu = FN_TARGET[unit]
+    return {
+        "conv": lambda data: data["a"].convert(tu).value,      # value of a in another unit
+        "ret": lambda data: data["a"],                         # node a itself; the line converts it into its unit
+        "read": lambda data: data["a"].value * 2,              # plain read access
+    }
+
+
+def function_lines(fam, seq, fn, pos):
+    """(pre, post): definition of node v by a function of node a, at the end of the program; pos 'mod': v is defined
+    before a and the function line is a typed modification"""
+    kw, unit, shape, first, variant = fam
+    a = _final_a(fam, seq)
+    tu = FN_TARGET[unit]
+    if fn in ("conv", "ret"):
+        num, lu = a * G.UNITS[unit][0] / G.UNITS[tu][0], tu
+    else:
+        num, lu = a * 2, unit
+    L = G.lit("(%s)" % fn, float(num), exact=num)
+    pre = []
+    if pos == "mod":
+        pre.append(dict(k="def", d=0, name="v", type="float", dims=None, lit=G.lit("1", 1.0), unit=tu))
+    post = [dict(k="mod" if pos == "mod" else "def", d=0, name="v", type="float", dims=None, lit=L, unit=lu,
+                 approx=True)]
+    return pre, post, num
+
+
 # ------------------------------------------------------------------------------------------------ one case
 def make_case(desc):
     fam = tuple(desc["fam"])
     seq = [tuple(s) for s in desc["seq"]]
+    if desc["sub"] == "constraints":
+        progs = build(fam, seq, desc.get("placement", "root"), props=constraint_props(fam, desc["ckind"]))
+        return progs, case_tags(fam, seq, desc.get("placement", "root")) | {"constraint:" + desc["ckind"]}
+    if desc["sub"] == "functions":
+        pre, post, num = function_lines(fam, seq, desc["fn"], desc["pos"])
+        if num == 0 and desc["pos"] == "def":
+            return None, set()       # not C14: a DEFINITION whose function returns 0 (single assignment)
+        progs = build(fam, seq, "root", pre=pre, post=post)
+        return progs, case_tags(fam, seq, "root") | {"function:" + desc["fn"], "function-line:" + desc["pos"]}
     bad = None
     if desc.get("bad") is not None:
         bad = bad_steps(fam)[desc["bad"]]
@@ -354,7 +471,8 @@ def run_case(desc, sh=None, seen=None):
             return None
         seen.add(key)
     sub = desc["sub"]
-    got = outcome(G.execute, texts)
+    fns = function_table(desc["fam"][1]) if sub == "functions" else None
+    got = outcome(G.execute, texts, functions=fns)
     uses_cu = any(ln["k"] == "unitdef" for ln in whole)
     if got[0] == "err" or uses_cu:
         isolation.tables_restore()
@@ -485,6 +603,28 @@ def _cases(tier, seed, only=None):
                                    undefined="suffix", bad_at=at)
 
 
+def _extra_cases(tier, seed):
+    """constraints: the node carries an option list / a condition, so that the validation pass of parse() runs;
+    functions: another node v is computed by a DIP function that reads / converts node a"""
+    for fam in constrained_families():
+        F = list(fam)
+        full, core = value_steps(fam), value_steps(fam, core=True)
+        seqs = [(x,) for x in full]
+        seqs += list(itertools.product(full if tier == "thorough" else core, full if tier == "thorough" else core))
+        for ckind in CKINDS:
+            for seq in seqs:
+                for pl in ("root", "chain"):
+                    yield dict(sub="constraints", fam=F, seq=[list(x) for x in seq], placement=pl, ckind=ckind)
+        fseqs = ([()] if fam[3] == "def" else []) + [(x,) for x in full] + list(itertools.product(core, core))
+        for fn in FN_KINDS:
+            for pos in ("def", "mod"):
+                for seq in fseqs:
+                    yield dict(sub="functions", fam=F, seq=[list(x) for x in seq], fn=fn, pos=pos)
+
+
+NEXTRA = 8
+
+
 def _family_size(tier, seed, fi):
     fam = families()[fi]
     a, c = len(steps(fam)), len(steps(fam, core=True))
@@ -498,7 +638,7 @@ def plan(tier, seed):
         parts = max(1, round(_family_size(tier, seed, fi) / 2500))
         shards += [(tier, seed, fi, k, parts) for k in range(parts)]
     shards.sort(key=lambda d: -_family_size(d[0], d[1], d[2]) / d[4])
-    return shards
+    return [("x", tier, seed, k, NEXTRA) for k in range(NEXTRA)] + shards
 
 
 def init_worker():
@@ -507,10 +647,18 @@ def init_worker():
 
 
 def run_shard(desc):
-    tier, seed, fi, k, n = desc
     sh = Shard(PROPERTY)
     seen = set()
     idx = 0
+    if desc[0] == "x":
+        _, tier, seed, k, n = desc
+        for d in _extra_cases(tier, seed):
+            idx += 1
+            if idx % n == k:
+                run_case(d, sh, seen)
+        isolation.tables_restore()
+        return sh
+    tier, seed, fi, k, n = desc
     for _, d in _cases(tier, seed, only=fi):
         idx += 1
         if idx % n != k:
@@ -529,7 +677,7 @@ def replay(rec):
 
 def finish(total, tier, seed):
     h = total.hist
-    need = ["expect=accept", "sub=sequence", "sub=placement", "sub=negative", "len=3", "feature=last:zero",
+    need = ["expect=accept", "sub=sequence", "sub=placement", "sub=negative", "sub=constraints", "sub=functions", "len=3", "feature=last:zero",
             "feature=last:none", "feature=last:false", "feature=last:empty", "feature=conversion", "feature=array",
             "feature=earlier:none-with-unit",
             "feature=typed-mod"] + ["placement=" + p for p in PLACEMENTS]
@@ -548,7 +696,9 @@ MANIFEST = dict(
          "sequence of 1-2 modifications (typed/untyped x 0/negative/positive/false/''/none x unit omitted/same/two "
          "other units; `none <unit>` only as an intermediate step), length 3 over a core alphabet for all families and over the full alphabet for the seed's window "
          "(1 of 26 windows, chosen by VERIF_SEED; thorough: all windows), five placements (root, group, dotted path, re-opened group, DIP(env) chain) and negative "
-         "programs (other data type, other dimension, constant, never assigned, undefined node) that must be rejected.",
+         "programs (other data type, other dimension, constant, never assigned, undefined node) that must be rejected; "
+         "nodes carrying option lists (same / other unit) and conditions so that validation runs; nodes read or "
+         "converted by DIP functions of another node.",
     note="Unit factors hand-written (SI definitions), converted values compared to 1e-12 relative. Not covered: none "
          "with a unit, units on unit-less nodes, non-integral integer conversions, non-linear units, shape changes.",
     technique="bounded grammar enumeration, reference interpreter over the generator AST with exact Fraction unit algebra",
